@@ -85,6 +85,10 @@ func genC29(seed uint64, tier string) any {
 		switch k {
 		case "sni":
 			e.Names = []string{[]string{serverName, "a.example", "xn--test.sim.test"}[r.Intn(3)]}
+			if r.Chance(1, 3) {
+				// boundary lengths of a DNS name (labels of at most 63 bytes, 253 bytes in total)
+				e.Names = []string{dnsNameOfLen([]int{1, 62, 63, 64, 127, 128, 200, 250, 252, 253}[r.Intn(10)])}
+			}
 		case "alpn":
 			for j := r.Range(1, 3); j > 0; j-- {
 				e.Names = append(e.Names, alpnUniverse[r.Intn(len(alpnUniverse))])
@@ -96,7 +100,7 @@ func genC29(seed uint64, tier string) any {
 		case "points":
 			e.Bytes = []byte{0}
 		case "ticket":
-			e.Bytes = r.Bytes([]int{0, 1, 48, 200}[r.Intn(4)])
+			e.Bytes = r.Bytes([]int{0, 1, 48, 200, 255, 256, 257, 1000}[r.Intn(8)])
 		case "sigalgs":
 			for j := r.Range(1, 5); j > 0; j-- {
 				e.U16 = append(e.U16, uint16(r.Range(2, 6))<<8|uint16(r.Range(1, 2)))
@@ -108,6 +112,27 @@ func genC29(seed uint64, tier string) any {
 	sc.ClockOffset = []int{0, 1, 3600, 86400 * 365 * 5, 86400 * 365 * 30}[r.Intn(5)]
 	sc.Net = genNet(r)
 	return sc
+}
+
+// dnsNameOfLen returns a syntactically valid DNS name of exactly n bytes.
+func dnsNameOfLen(n int) string {
+	var b []byte
+	for len(b) < n {
+		l := n - len(b)
+		if l > 63 {
+			l = 63
+			if n-len(b)-l == 1 {
+				l = 62 // never leave room for a lone dot
+			}
+		}
+		for i := 0; i < l; i++ {
+			b = append(b, byte('a'+(len(b)+i)%26))
+		}
+		if len(b) < n {
+			b = append(b, '.')
+		}
+	}
+	return string(b)
 }
 
 type fixedCacheKey struct{}
